@@ -186,7 +186,7 @@ package immutable
 // ---- C17 / C08: every violation that the suppression set does not cover is emitted, at its position ----------------
 //@ pure func shown_immutable(ign *util.IgnoreSet, vs []ImmutableViolation, m int) rec int = m <= 0 ? 0 : (shown_immutable(ign, vs, m-1) + (supp(ign, vs[m-1].Code, vs[m-1].Pos) ? 0 : 1))
 //@ func ReportViolations
-//@   props C17 C08 C07 C10
+//@   props C17 C08 C07 C10 C01
 //@   requires true && (ignoreSet != nil ==> isetInv(ignoreSet))
 //@   assigns pass.$reports
 //@   ensures len(pass.$reports) == old(len(pass.$reports)) + shown_immutable(ignoreSet, violations, len(violations))
